@@ -129,6 +129,8 @@ class Fn:
         self.ptrs = {}
         self.ret_hook = None
         self.repo = None
+        self.loop_exit = []
+        self.uses_fuel = False
 
     # ---------------------------------------------------------------- expressions
     def lval_name(self, n):
@@ -195,6 +197,9 @@ class Fn:
                 c = self.C(a)
                 return {"true": "0", "false": "1"}.get(c, "(if %s then 0 else 1)" % c)
             if op == "*":
+                cp = self.char_ptr_expr(a)
+                if cp is not None:
+                    return "(rdc sgn %s)" % cp
                 base, off = self.pointee(a)
                 return self.elem_read(base, off)
             raise Unsupported("unary " + op)
@@ -272,7 +277,7 @@ class Fn:
                 return self.elem_read(self.ptrs[name][0], self.ptrs[name][1] + iv)
             pos = "%d%%nat" % iv if iv is not None and iv >= 0 else "(Z.to_nat %s)" % ie
             if name in self.char_ptrs:
-                return "(chr (skipn %s %s))" % (pos, name)
+                return "(rdc sgn (skipn %s %s))" % (pos, name)
             self.note_len(name, arr)
             if iv is not None and iv >= 0:
                 # scalar replacement: an element written at a constant index lives in its own variable
@@ -424,6 +429,23 @@ class Fn:
             return name, ie
         return self.lval_name(n), None
 
+    def char_ptr_expr(self, a):
+        """a `char*`-valued expression as a Gallina list suffix, or None if it is not one"""
+        k = a["kind"]
+        if k in ("ParenExpr", "ImplicitCastExpr", "CStyleCastExpr"):
+            return self.char_ptr_expr(a["inner"][0])
+        if k == "DeclRefExpr":
+            nm = a["referencedDecl"]["name"]
+            return nm if nm in self.char_ptrs else None
+        if k == "BinaryOperator" and a["opcode"] == "+":
+            base = self.char_ptr_expr(a["inner"][0])
+            if base is None:
+                return None
+            off = self.E(a["inner"][1])
+            v = cval(off)
+            return "(skipn %s %s)" % ("%d%%nat" % v if v is not None and v >= 0 else "(Z.to_nat %s)" % off, base)
+        return None
+
     def pointee(self, a):
         """(base array, constant offset) designated by a pointer-valued expression; `p++` advances p"""
         k = a["kind"]
@@ -553,6 +575,11 @@ class Fn:
                     continue
                 if ty.endswith("char *"):
                     self.char_ptrs.add(v["name"])
+                    cp = self.char_ptr_expr(init[0]) if init else None
+                    if cp is None:
+                        raise Unsupported("char pointer initialised from something else")
+                    out += "let %s : list Z := %s in\n" % (v["name"], cp)
+                    continue
                 call = self.as_inline_call(init[0]) if init else None
                 if call is not None:
                     name = v["name"]
@@ -608,7 +635,7 @@ class Fn:
             if tgt[0] in self.char_ptrs:
                 if n["opcode"] == "--":
                     raise Unsupported("-- on char pointer")
-                return "let %s := tl %s in\n" % (tgt[0], tgt[0]) + self.S(rest, k)
+                return "let %s : list Z := tl %s in\n" % (tgt[0], tgt[0]) + self.S(rest, k)
             cur = self.read(tgt)
             v = cval(cur)
             d = 1 if n["opcode"] == "++" else -1
@@ -623,7 +650,8 @@ class Fn:
                 return self.S([then] + rest, k)
             if c == "false":
                 return self.S(([els] if els is not None else []) + rest, k)
-            if self.has_return(then) or (els is not None and self.has_return(els)):
+            if self.has_return(then) or (els is not None and self.has_return(els)) or \
+                    self.has_break(then) or (els is not None and self.has_break(els)):
                 saved = dict(self.consts)
                 t = self.S([then] + rest, k)
                 self.consts = dict(saved)
@@ -644,12 +672,21 @@ class Fn:
             for x in m:
                 self.consts.pop(x, None)
             return "let %s := (if %s then (%s) else (%s)) in\n" % (self.pat(m), c, t, e) + self.S(rest, k)
+        if kind == "BreakStmt":
+            if not self.loop_exit:
+                raise Unsupported("break outside a translated loop")
+            return self.loop_exit[-1](True)
+        if kind == "ContinueStmt":
+            raise Unsupported("continue")
         if kind in ("ForStmt", "WhileStmt"):
             if kind == "ForStmt":
                 init, _cv, cond, inc, body = n["inner"]
             else:
                 init, cond, inc, body = None, n["inner"][0], None, n["inner"][1]
             loopbody = [body] + ([inc] if inc is not None and inc.get("kind") else [])
+            if self.has_break(body):
+                return (self.S([init], lambda: self.break_loop(cond, body, inc, rest, k))
+                        if init is not None and init.get("kind") else self.break_loop(cond, body, inc, rest, k))
 
             def iterate(count):
                 c = self.C(cond)
@@ -673,9 +710,10 @@ class Fn:
                 self.consts = saved
                 for x in m:
                     self.consts.pop(x, None)
-                return ("match whileF %d (fun st => let %s := st in %s) (fun st => let %s := st in\n%s) %s with\n"
+                self.uses_fuel = True
+                return ("match whileF fuel (fun st => let %s := st in %s) (fun st => let %s := st in\n%s) %s with\n"
                         "| None => None\n| Some st => let %s := st in\n%s\nend") % (
-                    FUEL, self.pat(m), cc, self.pat(m), b, init_vals, self.pat(m), self.S(rest, k))
+                    self.pat(m), cc, self.pat(m), b, init_vals, self.pat(m), self.S(rest, k))
             if init is not None and init.get("kind"):
                 return self.S([init], lambda: iterate(0))
             return iterate(0)
@@ -764,6 +802,46 @@ class Fn:
         text = self.S([body], lambda: done(None))
         return out + text
 
+    def has_break(self, n):
+        """a break that belongs to this loop (not to a nested one)"""
+        if n.get("kind") == "BreakStmt":
+            return True
+        if n.get("kind") in ("ForStmt", "WhileStmt", "DoStmt", "SwitchStmt"):
+            return False
+        return any(isinstance(c, dict) and self.has_break(c) for c in n.get("inner", []))
+
+    def break_loop(self, cond, body, inc, rest, k):
+        """a loop left through `break`: fuelled, the state carries a flag"""
+        self.uses_option = True
+        self.uses_fuel = True
+        m = set()
+        self.assigned(body, m)
+        if inc is not None and inc.get("kind"):
+            self.assigned(inc, m)
+        m -= self.declared(body, set())
+        m = sorted(m)
+        init_vals = self.vals(m)
+        for x in m:
+            self.consts.pop(x, None)
+        saved = dict(self.consts)
+        cc = self.C(cond) if cond is not None and cond.get("kind") else "true"
+        state = ["brk"] + m
+
+        def exit_(broke):
+            return "Some " + self.tup([("true" if broke else "false")] + [lit(self.consts[x]) if x in self.consts else x for x in m])
+        self.loop_exit.append(exit_)
+        inc_stmts = [inc] if inc is not None and inc.get("kind") else []
+        b = self.S([body] + inc_stmts, lambda: exit_(False))
+        self.loop_exit.pop()
+        self.consts = saved
+        for x in m:
+            self.consts.pop(x, None)
+        cond_txt = "negb brk" if cc == "true" else "(negb brk && %s)" % cc
+        return ("match whileF fuel (fun st => let %s := st in %s) (fun st => let %s := st in\n%s) %s with\n"
+                "| None => None\n| Some st => let %s := st in\n%s\nend") % (
+            self.pat(state), cond_txt, self.pat(state), b, self.tup(["false"] + init_vals.strip("()").split(", ") if m else ["false"]),
+            self.pat(state), self.S(rest, k))
+
     def const_of(self, n):
         try:
             return cval(self.E(n))
@@ -808,7 +886,13 @@ class Fn:
         text = self.S([body], lambda: self.ret(None))
         if self.uses_option_final:
             rty = "option (%s)" % rty
-        return "Definition %s %s : %s :=\n%s." % (self.name, " ".join("(%s : %s)" % p for p in params), rty, text)
+        extra = []
+        if self.uses_fuel:
+            extra.append(("fuel", "nat"))
+        if "(rdc sgn " in text:
+            extra.append(("sgn", "bool"))
+        self.extra_params = [p[0] for p in extra]
+        return "Definition %s %s : %s :=\n%s." % (self.name, " ".join("(%s : %s)" % p for p in extra + params), rty, text)
 
 
 UNROLL = 512
@@ -869,6 +953,10 @@ TARGETS = [
     ("features.c", "polyseed_enable_features", [("reserved_features", "Z"), ("mask", "Z")], ["reserved_features"], [], "Z * Z"),
     ("gf.c", "polyseed_data_to_poly",
      [("data_birthday", "Z"), ("data_features", "Z"), ("data_secret", "list Z"), ("poly_coeff", "list Z")], ["poly_coeff"], [], "list Z"),
+    ("lang.c", "compare_str", [("key", "list Z"), ("elm", "list Z")], [], [], "Z"),
+    ("lang.c", "compare_prefix", [("key", "list Z"), ("elm", "list Z"), ("n", "Z")], [], [], "Z"),
+    ("lang.c", "compare_str_noaccent", [("key", "list Z"), ("elm", "list Z")], [], [], "Z"),
+    ("lang.c", "compare_prefix_noaccent", [("key", "list Z"), ("elm", "list Z"), ("n", "Z")], [], [], "Z"),
     ("storage.c", "polyseed_data_store",
      [("data_birthday", "Z"), ("data_features", "Z"), ("data_secret", "list Z"), ("data_checksum", "Z"), ("storage", "list Z")],
      ["storage"], [], "list Z"),
@@ -890,6 +978,14 @@ Fixpoint upd {A} (l : list A) (i : nat) (v : A) : list A :=
   | [], _ => []
   | _ :: t, O => v :: t
   | h :: t, S i' => h :: upd t i' v
+  end.
+
+(* the value of a plain `char` read through a pointer into a NUL-terminated string given as the list of
+   its bytes (0..255) up to the terminator; sgn = plain char is signed on the target *)
+Definition rdc (sgn : bool) (s : list Z) : Z :=
+  match s with
+  | [] => 0
+  | b :: _ => if sgn && (128 <=? b) then b - 256 else b
   end.
 
 (* while (c) b, at most `fuel` iterations; None = the fuel ran out *)
@@ -933,7 +1029,7 @@ def main():
                 # memset(data->secret, 0, 32) and the four stores to fields of *data at the top
                 pass
             parts.append(text)
-            known[fn] = gl
+            known[fn] = list(getattr(f, "extra_params", [])) + gl
             status[fn] = "ok" + (" (asserts: %s)" % ", ".join(f.asserts) if f.asserts else "")
         except Unsupported as e:
             parts.append("(* %s: NOT TRANSLATED: %s *)" % (fn, e))
@@ -941,6 +1037,32 @@ def main():
         except Exception as e:   # noqa
             parts.append("(* %s: NOT TRANSLATED: %r *)" % (fn, e))
             status[fn] = "error: %r" % e
+    # the prefix length the two wrappers hand to the prefix comparers (third argument of the call)
+    for wrap_fn, callee in (("compare_prefix_wrap", "compare_prefix"), ("compare_prefix_noaccent_wrap", "compare_prefix_noaccent")):
+        try:
+            node = ast_of(repo, "lang.c", wrap_fn)
+            found = []
+
+            def walk(x):
+                if x.get("kind") == "CallExpr":
+                    try:
+                        h = Fn(wrap_fn, node, [], {})
+                        if h.lval_name(x["inner"][0]) == callee:
+                            found.append(cval(h.E(x["inner"][3])))
+                    except Unsupported:
+                        pass
+                for c in x.get("inner", []):
+                    if isinstance(c, dict):
+                        walk(c)
+            walk(node)
+            if len(found) == 1 and found[0] is not None:
+                parts.append("Definition %s_n : Z := %d." % (wrap_fn, found[0]))
+                status[wrap_fn] = "ok"
+            else:
+                raise Unsupported("call of %s not found or its length argument is not a constant" % callee)
+        except Unsupported as e:
+            parts.append("(* %s: NOT TRANSLATED: %s *)" % (wrap_fn, e))
+            status[wrap_fn] = "unsupported: %s" % e
     new = "\n\n".join(parts) + "\n"
     try:
         old = open(out).read()
